@@ -173,7 +173,7 @@ Section RecoverProofs.
   Lemma decodes_enc rs : Forall ok rs -> decodes record dec (map enc rs) rs.
   Proof. induction 1 as [|r rs [H _] _ IH]; constructor; auto. Qed.
   Lemma short_enc rs : Forall ok rs -> short (map enc rs).
-  Proof. induction 1 as [|r rs [_ H] _ IH]; constructor; auto. Qed.
+  Proof. induction 1 as [|r rs [_ [H _]] _ IH]; constructor; auto. Qed.
 
   Lemma parse_frames_enc rs : Forall ok rs -> parse crc record dec (frames rs) = (rs, Eof).
   Proof. intros H. apply parse_frames_l; auto using decodes_enc, short_enc. Qed.
@@ -187,6 +187,39 @@ Section RecoverProofs.
   Proof.
     intros Hok H. unfold Recover.file_records, cut_file. cbn [f_bytes]. rewrite H. unfold frames.
     rewrite (parse_truncated_l crc record dec crc_range (map enc rs) rs n); auto using decodes_enc, short_enc.
+  Qed.
+
+  (** * [intact_prefix_len] on files of whole frames: nothing is cut *)
+  Lemma intact_step p rest f :
+    lenZ p < two32 ->
+    intact_len_fuel crc (S f) (frame crc p ++ rest) = (8 + length p + intact_len_fuel crc f rest)%nat.
+  Proof.
+    intros Hl. unfold frame. rewrite <- !app_assoc. cbn [intact_len_fuel].
+    assert (E1 : (length (le32 (lenZ p) ++ p ++ le32 (crc p) ++ rest) <? 4)%nat = false).
+    { apply Nat.ltb_ge. rewrite app_length, le32_length. lia. }
+    rewrite E1, firstn4_le32, skipn4_le32.
+    rewrite (u32_le32 (lenZ p)) by (pose proof (lenZ_nonneg p); lia).
+    assert (E2 : (lenZ (p ++ le32 (crc p) ++ rest) <? lenZ p + 4) = false).
+    { apply Z.ltb_ge. rewrite !lenZ_app. assert (L4 : lenZ (le32 (crc p)) = 4) by (unfold lenZ; rewrite le32_length; reflexivity).
+      rewrite L4. pose proof (lenZ_nonneg rest). lia. }
+    rewrite E2. assert (EN : Z.to_nat (lenZ p) = length p) by (unfold lenZ; apply Nat2Z.id).
+    rewrite !EN, firstn_app_exact, skipn_app_exact, firstn4_le32, skipn4_le32.
+    rewrite u32_le32 by apply crc_range. rewrite Z.eqb_refl. reflexivity.
+  Qed.
+  Lemma intact_frames_fuel ps : forall fuel,
+    short ps -> (length (concat (map (frame crc) ps)) < fuel)%nat ->
+    intact_len_fuel crc fuel (concat (map (frame crc) ps)) = length (concat (map (frame crc) ps)).
+  Proof.
+    induction ps as [|p ps IH]; intros fuel Hs Hf.
+    - destruct fuel; reflexivity.
+    - inversion Hs as [|? ? Hp Hs']; subst. cbn [map concat] in *. rewrite app_length, frame_length in *.
+      destruct fuel as [|fuel]; [lia|]. rewrite (intact_step p _ fuel Hp), IH by (assumption || lia). lia.
+  Qed.
+  Lemma cut_torn_frames f rs : Forall ok rs -> f_bytes f = frames rs -> cut_torn crc f = f.
+  Proof.
+    intros Hok Hb. unfold cut_torn, intact_len. rewrite Hb. unfold frames.
+    rewrite intact_frames_fuel by (auto using short_enc).
+    rewrite Nat.ltb_irrefl. reflexivity.
   Qed.
 
   Lemma disk_records_app minseq a b : disk_records minseq (a ++ b) = disk_records minseq a ++ disk_records minseq b.
